@@ -320,7 +320,9 @@ def eval_case(ctx, case, props):
                 for i, (hs, st) in enumerate(zip(heap, fin)):
                     w = hs.split(',')
                     mdl = (None if w[0] == '-' else int(w[0]), None if w[1] == '-' else int(w[1]), None if w[2] == '-' else w[2])
-                    if mdl != st[:3] or (st[3] is not None and not near(st[3], parse_num(w[3]), st[3], 1e-9)) or \
+                    mratio = None if w[3] == '-' else parse_num(w[3])
+                    if mdl != st[:3] or (st[3] is None) != (mratio is None) or \
+                            (st[3] is not None and not near(st[3], mratio, st[3], 1e-9)) or \
                             (st[4] is not None and not near(float(st[4]), parse_num(w[4]), 1.0, 1e-9)) or \
                             (st[5] is not None and (w[5] == '1') != st[5]):
                         ctx.mismatch(case, {'element': i, 'state': st}, hs)
@@ -438,6 +440,11 @@ def gen_chain_case(rng, tbl):
             decls.append(rng.choice([['joint', rng.randrange(n), 0], ['joint', prev, prev], ['gear', prev, rng.randrange(n), 1.4],
                                      ['gear', rng.randrange(n), rng.randrange(n), 0.9], ['worm', rng.randrange(n), rng.randrange(n), 0.1],
                                      ['worm', prev, rng.randrange(n), -0.5]]))
+    if rng.random() < 0.35:
+        # reuse: an element that is (or was) the slave of a mating becomes the slave of a fixed joint, and vice versa
+        slaves = [d[2] for d in decls if d[0] in ('gear', 'worm')]
+        if slaves:
+            decls.append(['joint', 0, rng.choice(slaves)])
     if rng.random() < 0.3 and len(pool) > 3:
         # re-route: an earlier element now drives a new flywheel, cutting the tail off the chain
         i = add({'type': 'fly'})
